@@ -271,7 +271,12 @@ func (d *dut) tryUnrecoverable(rng *rand.Rand, first int, histOK bool) {
 			continue // reported by checkRecoverable
 		}
 		before := d.digest()
-		err := d.db.Recover(c.root)
+		var err error
+		if d.r.Guard("C17:recover-unrecoverable", map[string]any{"config": d.cfg, "ops": tail(d.oplog, 40), "kind": c.kind}, func() { err = d.db.Recover(c.root) }) {
+			d.bad = true
+			otherViolations.Add(1)
+			return
+		}
 		after := d.digest()
 		d.r.Count("unrecoverable_attempts_"+c.kind, 1)
 		d.logf("recover(%s) -> %v", c.kind, err)
@@ -303,7 +308,13 @@ func (d *dut) recoverTo(t int, rng *rand.Rand) (where string, ok bool) {
 	}
 	target := d.chain[t]
 	d.logf("recover to id %d (disk id %d, head id %d, buffer layers %d, frozen %v)", t, d.diskIdx, len(d.chain)-1, before.bufLayers, before.frozen)
-	if err := d.db.Recover(target.Root); err != nil {
+	var err error
+	if d.r.Guard("C17:recover", map[string]any{"config": d.cfg, "ops": tail(d.oplog, 40), "target_id": t}, func() { err = d.db.Recover(target.Root) }) {
+		d.bad = true
+		otherViolations.Add(1)
+		return where, false
+	}
+	if err != nil {
 		if d.cfg.TrieHist > 0 && strings.Contains(err.Error(), "truncation out of range") && strings.Contains(err.Error(), "trienode") {
 			d.r.Count("recover_failed_trienode_tail", 1)
 			d.viol(fpTrienodeTail, fmt.Sprintf("Recover(canonical id %d, reported recoverable, depth %d, stateHistory=%d trienodeHistory=%d) failed after reverting: %v", t, depth, d.cfg.StateHist, d.cfg.TrieHist, err), nil)
